@@ -437,7 +437,18 @@ fn fnv(s: &str) -> u64 {
 
 pub struct Literals;
 
-const ESCAPES: [(&str, &str); 14] = [
+const ESCAPES: [(&str, &str); 23] = [
+    // supplementary planes through surrogate-pair escapes (plane 2, plane 16) and raw
+    ("\\ud840\\udc0b", "\u{2000b}"),
+    ("\\udbff\\udfff", "\u{10ffff}"),
+    ("\u{2000b}", "\u{2000b}"),
+    // C1 controls, no-break space, byte order mark: escaped and raw
+    ("\\u0085", "\u{85}"),
+    ("\u{85}", "\u{85}"),
+    ("\u{9f}", "\u{9f}"),
+    ("\u{a0}", "\u{a0}"),
+    ("\\ufeff", "\u{feff}"),
+    ("\\u2028", "\u{2028}"),
     ("\\u0000", "\u{0}"),
     ("\\ud83d\\ude00", "😀"),
     ("\\u007f", "\u{7f}"),
